@@ -46,7 +46,7 @@ theorem fact_deny_check :
 /-- PostgreSQL: the statement is remembered as pending only **after** the censor let it through
 (`Session.stepQuery … addFirst = false`); a censor error makes `handleQueryPacket` report "censored". -/
 theorem fact_pg_add_after_censor :
-    pgSimpleQueryCalls = ["GetSimpleQuery", "handleQueryPacket", "Add"] ∧ pgAddGuardedByCensor = true
+    addAfterCensor pgSimpleQueryCalls = true ∧ pgAddGuardedByCensor = true
     ∧ pgCensorCall = "censorErr != nil => return true, nil" := by decide
 
 /-- PostgreSQL loop: a censored packet is answered with ErrorResponse + ReadyForQuery and the loop continues
@@ -244,6 +244,11 @@ theorem queue_aligned (denied : String → Bool) (evs : List Ev) (hwf : wellForm
     ∧ pairedWith (run denied false ⟨[]⟩ evs).2 = ((allowedOf denied evs).take (doneCount evs)).map some := by
   have := aligned_run denied ⟨[]⟩ evs (by simpa using hwf)
   simpa using this
+
+/-- MySQL: the database-side trace of a session is exactly its allowed statements (`fact_mysql`: censor first, `continue` after the error packet). -/
+theorem mysql_denied_not_forwarded (denied : String → Bool) (qs : List String) :
+    forwarded (myRun denied qs) = qs.filter (fun q => !denied q) :=
+  forwarded_myRun denied qs
 
 /-- The order matters: remembering the statement *before* asking the censor (the pinned tree before the repair)
 pairs the next response with the rejected statement. -/
